@@ -22,9 +22,16 @@ type MountType struct {
 	root string
 }
 
+// deviceSubroot: the directory `root` (other than "/") of a file system is visible at
+// `mountpoint`: a bind-mounted subdirectory or a subvolume
+type deviceSubroot struct {
+	root, mountpoint string
+}
+
 type deviceType struct {
 	name string
-	roots []string
+	roots []string			// mountpoints showing the root of the file system
+	subroots []deviceSubroot	// mountpoints showing part of it
 }
 
 type Mounts struct {
@@ -143,12 +150,14 @@ func ProbeMounts() (Mounts, error) {
 		var device *deviceType
 		device, ok := devices[st_dev]
 		if !ok {
-			device_list = append(device_list, deviceType{fsname, []string{}})
+			device_list = append(device_list, deviceType{name: fsname, roots: []string{}})
 			device = &device_list[len(device_list) - 1]
 			devices[st_dev] = device
 		}
 		if root == "/" {
 			device.roots = append(device.roots, mtpoint)
+		} else {
+			device.subroots = append(device.subroots, deviceSubroot{root, mtpoint})
 		}
 
 	}
@@ -174,19 +183,28 @@ func (m Mounts) GetMountAndSubmounts(path string) []*MountType {
 }
 
 
+// GetMountSources lists the paths from which the mount may have been made: for an overlay its
+// lower directory, for a whole file system its device name, and the mounted directory as it
+// is visible through every other mount of the same file system, whatever part of it that
+// mount shows (the root, a bind-mounted subdirectory, a subvolume)
 func (m Mounts) GetMountSources(mnt *MountType) []string {
 	device := m.devices[mnt.st_dev]
-	out := make([]string, 0, len(device.roots) + 1)
+	out := make([]string, 0, len(device.roots) + len(device.subroots) + 2)
 	if len(mnt.Source) > 0 {
 		out = append(out, mnt.Source)
-	} else {
-		root := mnt.root
-		if root == "/" {
-			out = append(out, device.name)
-			root = ""
+	}
+	if mnt.root == "/" {
+		out = append(out, device.name)
+	}
+	for _, mp := range device.roots {
+		src := path.Join(mp, mnt.root)
+		if src != mnt.Mountpoint {
+			out = append(out, src)
 		}
-		for _, mp := range device.roots {
-			src := path.Join(mp, root)
+	}
+	for _, sub := range device.subroots {
+		if mnt.root == sub.root || strings.HasPrefix(mnt.root, sub.root + "/") {
+			src := path.Join(sub.mountpoint, mnt.root[len(sub.root):])
 			if src != mnt.Mountpoint {
 				out = append(out, src)
 			}
